@@ -57,12 +57,17 @@ type memStore struct {
 	stall           bool               // failing writes block until the flush context is done
 	stalledIDs      []int64            // rows of the writes that stalled since the last worker task finished
 	unflagged       map[int64]bool     // rows whose stalled worker flush ended without the flush-failure flag
+	late            bool               // writes succeed, but return only after the flush context is done
+	lateIDs         []int64            // rows stored by such writes since the last task finished
+	taskFailed      bool               // some write returned an error since the last task finished
+	prevFlag        bool               // flush-failure flag when the current task / op started
+	falseFail       map[int64]bool     // rows whose flush was reported failed (flag raised) although every write succeeded
 	clashes         int
 	badDecode       int
 }
 
 func newMemStore() *memStore {
-	return &memStore{files: map[string][]int64{}, failAfter: -1, unflagged: map[int64]bool{}}
+	return &memStore{files: map[string][]int64{}, failAfter: -1, unflagged: map[int64]bool{}, falseFail: map[int64]bool{}}
 }
 
 func hourOfPath(p string) int {
@@ -84,6 +89,7 @@ func (m *memStore) Write(ctx context.Context, path string, data []byte) error {
 		return fmt.Errorf("storage unreachable (process gone)")
 	}
 	if m.failAfter == 0 {
+		m.taskFailed = true
 		if m.stall {
 			if g, err := gidsOfParquet(data); err == nil {
 				m.stalledIDs = append(m.stalledIDs, g...)
@@ -113,7 +119,27 @@ func (m *memStore) Write(ctx context.Context, path string, data []byte) error {
 	}
 	m.files[path] = gids
 	m.succ = append(m.succ, hourOfPath(path))
+	if m.late {
+		// the file IS stored; the call only returns after the flush deadline (slow backend that ignores ctx)
+		m.lateIDs = append(m.lateIDs, gids...)
+		m.mu.Unlock()
+		select {
+		case <-ctx.Done():
+		case <-time.After(200 * time.Millisecond):
+		}
+		m.mu.Lock()
+	}
 	return nil
+}
+
+// taskEnded: a worker task or a synchronous flush is over and the flag reads `flag`.
+func (m *memStore) taskEnded(flag bool) {
+	if flag && !m.prevFlag && !m.taskFailed {
+		for _, id := range m.lateIDs {
+			m.falseFail[id] = true
+		}
+	}
+	m.lateIDs, m.taskFailed, m.prevFlag = nil, false, flag
 }
 func (m *memStore) Close() error       { return nil }
 func (m *memStore) Type() string       { return "verif-mem" }
@@ -295,6 +321,9 @@ type sys struct {
 	buf   *ingest.ArrowBuffer
 	coord *shutdown.Coordinator
 	dec   *ingest.MessagePackDecoder
+	failAt   int     // replay callback invocation to reject in the current pass (-1 none)
+	cbCount  int
+	rejected []int64 // rows of the rejected entry
 	decTyped *ingest.MessagePackDecoder
 
 	now      int64 // model seconds
@@ -310,7 +339,7 @@ type sys struct {
 
 func newSys(cc caseCfg, facts factsT, root string) *sys {
 	s := &sys{cc: cc, facts: facts, root: root, walDir: filepath.Join(root, "wal"), store: newMemStore(), g: newGate(),
-		sizes: map[string]int64{}, dec: ingest.NewMessagePackDecoder(zerolog.Nop())}
+		sizes: map[string]int64{}, dec: ingest.NewMessagePackDecoder(zerolog.Nop()), failAt: -1}
 	s.decTyped = ingest.NewMessagePackDecoder(zerolog.Nop())
 	s.decTyped.SetTypedDecodeEnabled(true)
 	ingest.VerifC07Gate = s.g.enter
@@ -323,6 +352,7 @@ func newSys(cc caseCfg, facts factsT, root string) *sys {
 			}
 		}
 		st.stalledIDs = nil
+		st.taskEnded(flag)
 		st.mu.Unlock()
 	}
 	return s
@@ -570,6 +600,13 @@ func (s *sys) colCallback() wal.ColumnarRecoveryCallback {
 		if database == "" {
 			database = "default"
 		}
+		s.cbCount++
+		if s.cbCount-1 == s.failAt {
+			for _, v := range columns["gid"] {
+				s.rejected = append(s.rejected, toI64(v))
+			}
+			return fmt.Errorf("injected transient rejection of replayed entry %d", s.failAt)
+		}
 		err := s.buf.WriteColumnarDirectNoWAL(ctx, database, measurement, columns)
 		s.settleWorker()
 		return err
@@ -579,6 +616,13 @@ func (s *sys) colCallback() wal.ColumnarRecoveryCallback {
 // same body as cmd/arc/main.go:createWALRecoveryCallback (row-format entries: one write per record)
 func (s *sys) rowCallback() wal.RecoveryCallback {
 	return func(ctx context.Context, records []map[string]interface{}) error {
+		s.cbCount++
+		if s.cbCount-1 == s.failAt {
+			for _, rec := range records {
+				s.rejected = append(s.rejected, toI64(rec["gid"]))
+			}
+			return fmt.Errorf("injected transient rejection of replayed entry %d", s.failAt)
+		}
 		for _, rec := range records {
 			measurement, _ := rec["_measurement"].(string)
 			if measurement == "" {
@@ -621,7 +665,7 @@ func (s *sys) restart() {
 	s.g.set(false)
 	s.buf = ingest.NewArrowBuffer(cfg, s.store, zerolog.Nop())
 	s.store.mu.Lock()
-	stalling := s.store.stall
+	stalling := s.store.stall || s.store.late
 	s.store.mu.Unlock()
 	if stalling {
 		s.buf.VerifC07SetFlushTimeout(3 * time.Millisecond)
@@ -845,6 +889,8 @@ func (o op) text(obsDrained int) string {
 		return fmt.Sprintf("%s %d %s", o.kind, o.key, strings.Join(p, ","))
 	case "shut":
 		return fmt.Sprintf("shut %d", obsDrained)
+	case "tickf", "restartf":
+		return fmt.Sprintf("%s %d", o.kind, o.n)
 	}
 	return o.kind
 }
@@ -853,28 +899,48 @@ func (o op) text(obsDrained int) string {
 func (s *sys) apply(o op) (string, string, obsState) {
 	s.lastAck = false
 	drained := 0
-	needUp := o.kind != "adv" && o.kind != "mode" && o.kind != "stall" && o.kind != "restart"
+	isRestart := o.kind == "restart" || o.kind == "restartf"
+	needUp := o.kind != "adv" && o.kind != "mode" && o.kind != "stall" && o.kind != "late" && !isRestart
+	s.failAt, s.cbCount, s.rejected = -1, 0, nil
+	if o.kind == "tickf" || o.kind == "restartf" {
+		s.failAt = o.n
+	}
+	s.store.mu.Lock()
+	s.store.lateIDs, s.store.taskFailed = nil, false
+	s.store.prevFlag = s.up && s.buf.HasFlushFailure()
+	s.store.mu.Unlock()
 	switch {
 	case o.kind == "adv":
 		s.now += int64(o.n)
-	case needUp && !s.up, o.kind == "restart" && s.up:
+	case needUp && !s.up, isRestart && s.up:
 		// no-op (the model ignores it as well)
 	default:
 		s.now++
 	}
 	verifclock.Set(s.vnow().UnixNano())
-	if !(needUp && !s.up) && !(o.kind == "restart" && s.up) {
+	if !(needUp && !s.up) && !(isRestart && s.up) {
 		switch o.kind {
 		case "mode":
 			s.store.mu.Lock()
 			s.store.failAfter = o.n
 			s.store.succ = nil
 			s.store.stall = false
+			s.store.late = false
 			s.store.mu.Unlock()
 			if s.up {
 				s.buf.VerifC07SetFlushTimeout(30 * time.Second)
 			}
-		case "restart":
+		case "late":
+			s.store.mu.Lock()
+			s.store.failAfter = -1
+			s.store.succ = nil
+			s.store.stall = false
+			s.store.late = true
+			s.store.mu.Unlock()
+			if s.up {
+				s.buf.VerifC07SetFlushTimeout(3 * time.Millisecond)
+			}
+		case "restart", "restartf":
 			s.restart()
 		case "w":
 			s.write(o.key, o.rows, false)
@@ -887,6 +953,7 @@ func (s *sys) apply(o op) (string, string, obsState) {
 			s.store.failAfter = 0
 			s.store.succ = nil
 			s.store.stall = true
+			s.store.late = false
 			s.store.mu.Unlock()
 			if s.up {
 				s.buf.VerifC07SetFlushTimeout(3 * time.Millisecond)
@@ -918,7 +985,7 @@ func (s *sys) apply(o op) (string, string, obsState) {
 			}
 		case "age":
 			s.buf.VerifC07FlushAged()
-		case "tick":
+		case "tick", "tickf":
 			s.tick()
 		case "shut":
 			drained = s.shutdown()
@@ -928,6 +995,9 @@ func (s *sys) apply(o op) (string, string, obsState) {
 	}
 	// rows whose stalled SYNC flush (aged flush) ended in this op: flagged?
 	s.store.mu.Lock()
+	if s.up && o.kind == "age" {
+		s.store.taskEnded(s.buf.HasFlushFailure())
+	}
 	if len(s.store.stalledIDs) > 0 {
 		if s.up && o.kind == "age" && !s.buf.HasFlushFailure() {
 			for _, id := range s.store.stalledIDs {
